@@ -161,6 +161,11 @@ var histTemplates = []string{
 	"{{.BaseMetrics}}/{{.Vector}}/{{.Version}}",
 	"{{ .Version ",
 	"{{.NoSuchField}}",
+	// templates that define a named sub-template: the same name "cell" with a different body in each text (an export must see its own)
+	"{{define \"cell\"}}<1:{{.}}>{{end}}{{template \"cell\" .SeverityValue}} {{template \"cell\" .Vector}}",
+	"{{define \"cell\"}}<2:{{.}}>{{end}}{{template \"cell\" .SeverityValue}} {{template \"cell\" .Vector}}",
+	"{{define \"cell\"}}[3:{{.}}]{{end}}{{template \"cell\" .Version}}-{{template \"cell\" .SeverityName}}",
+	"{{define \"cell\"}}(4){{end}}{{define \"row\"}}{{template \"cell\"}}{{.}}{{end}}{{template \"row\" .Vector}}",
 }
 
 func runHistory(h string) string { return runHistoryOn(nil, h) }
